@@ -190,18 +190,69 @@ def r3_field_tables(ctx):
     R.check(rec == exp, "C15.R3", "reader-name-to-slot", "member names map to their own slots %s" % rec, "member name -> slot table is %s, expected %s" % (rec, exp), "%s:%d" % (vs.file, vs.lo))
 
 
+def _slots(F, vm):
+    """{member name: Option slot local} in Response::visit_map, derived structurally: the slot of member M is the
+    Option-typed local initialised to None that is assigned Some(..) in the arm of the `match key` for the Field variant
+    that visit_str returns for the string M (local names are not used)."""
+    fadt = None
+    for path, adt in F.adts.items():
+        if re.search(r"response::.*deserialize::Field$", path) and adt["kind"] == "Enum":
+            fadt = adt
+    if fadt is None:
+        raise AnchorLost("enum Field of Response's Deserialize impl")
+    vnames = [v["n"] for v in fadt["variants"]]
+    # the switch on the discriminant of a Field-typed local
+    arms = None
+    for bi, blk in enumerate(vm.blocks):
+        t = blk["term"]
+        if not t or t["t"] != "switch" or bi not in vm.reachable:
+            continue
+        p = op_place(t["discr"])
+        if p is None:
+            continue
+        for b2, s2, d2, src in vm.defs.get(p["l"], []):
+            if src[0] == "rv" and src[1]["k"] == "discr" and vm.locals[src[1]["pl"]["l"]]["ty"].endswith("deserialize::Field"):
+                arms = {vnames[int(v)]: tb for v, tb in t["arms"] if int(v) < len(vnames)}
+                rest = [n for n in vnames if n not in arms]
+                if len(rest) == 1:
+                    arms[rest[0]] = t["otherwise"]
+                head = bi
+    if arms is None:
+        raise AnchorLost("`match key` over Field in Response::visit_map")
+    cands = {}
+    for l, defs in vm.defs.items():
+        if not vm.local_ty(l).startswith("std::option::Option<"):
+            continue
+        if not any(d[3][0] == "rv" and d[3][1]["k"] == "agg" and d[3][1].get("variant") == "None" and not d[2].get("p") for d in defs):
+            continue
+        somes = []
+        for bi, si, dpl, src in defs:
+            if dpl.get("p"):
+                continue
+            if src[0] == "rv" and src[1]["k"] == "agg" and src[1].get("variant") == "Some":
+                somes.append(bi)
+            if src[0] == "rv" and src[1]["k"] == "use":
+                q = op_place(src[1]["op"])
+                if q is not None and any(s2[0] == "rv" and s2[1]["k"] == "agg" and s2[1].get("variant") == "Some" for _, _, _, s2 in vm.defs.get(q["l"], [])):
+                    somes.append(bi)
+        if somes:
+            cands[l] = somes
+    slots = {}
+    for vn, tb in arms.items():
+        for l, somes in cands.items():
+            if all(vm.dominates(tb, sb) for sb in somes) and tb != head:
+                slots.setdefault(vn.lower(), []).append(l)
+    return {k: v[0] for k, v in slots.items() if len(v) == 1}
+
+
 def r4_duplicate_guards(ctx):
     F, R = ctx.F, ctx.R
     vm = F.one(r"response::Response<'de, T> as .*Deserialize<'de>>::deserialize::Visitor<T> as .*>::visit_map$")
     R.fn(vm)
     n = 0
+    slots = _slots(F, vm)
     for name in ("jsonrpc", "result", "error", "id"):
-        ls = [l for l in vm.locals_named(name) if vm.local_ty(l).startswith("std::option::Option<")]
-        slot = None
-        for l in ls:
-            inits = [d for d in vm.defs.get(l, []) if d[3][0] == "rv" and d[3][1]["k"] == "agg" and d[3][1].get("variant") == "None"]
-            if inits:
-                slot = l
+        slot = slots.get(name)
         if slot is None:
             R.anchor_lost("C15.R4", "Option slot `%s` in Response::visit_map" % name)
             continue
@@ -238,17 +289,15 @@ def r5_acceptance_table(ctx):
     F, R = ctx.F, ctx.R
     vm = F.one(r"response::Response<'de, T> as .*Deserialize<'de>>::deserialize::Visitor<T> as .*>::visit_map$")
     names = ("jsonrpc", "result", "error")
+    slots = _slots(F, vm)
     start = None
     for bi, blk in enumerate(vm.blocks):
         for si, st in enumerate(blk["st"]):
             if st["s"] == "assign" and st["rv"]["k"] == "agg" and st["rv"]["ak"] == "tuple" and len(st["rv"]["ops"]) == 3:
                 ps = [op_place(o) for o in st["rv"]["ops"]]
                 if all(p_ is not None for p_ in ps):
-                    got = []
-                    for p_ in ps:
-                        nm = {vm.local_name(l) for l in flow._local_copies_back(vm, p_["l"], 6)}
-                        got.append(nm)
-                    if all(n in g for n, g in zip(names, got)):
+                    got = [flow._local_copies_back(vm, p_["l"], 6) for p_ in ps]
+                    if all(slots.get(n) in g for n, g in zip(names, got)):
                         start = (bi, si, [p_["l"] for p_ in ps])
     if start is None:
         raise AnchorLost("the (jsonrpc, result, error) decision in Response::visit_map")
@@ -258,7 +307,7 @@ def r5_acceptance_table(ctx):
         (re.compile(r"Extensions::new$"), lambda it, n, a: Sym("ext")),
     ]
     it = Interp(F, call_handlers=handlers)
-    id_locals = vm.locals_named("id")
+    id_locals = [slots["id"]] if "id" in slots else []
     n = 0
     for j in (False, True):
         for r in (False, True):
@@ -271,10 +320,14 @@ def r5_acceptance_table(ctx):
                 for l, v in zip(start[2], vals):
                     env[l] = [v]
                 for nm, v in zip(names, vals):
-                    for l in vm.locals_named(nm):
-                        env.setdefault(l, [v])
+                    if nm in slots:
+                        env.setdefault(slots[nm], [v])
                 for l in id_locals:
                     env.setdefault(l, [Sym("id")])
+                # values computed before the decision (the unwrapped id) are opaque
+                for l, defs in vm.defs.items():
+                    if l not in env and defs and all(d[0] != start[0] and vm.dominates(d[0], start[0]) for d in defs):
+                        env[l] = [Sym("pre%d" % l)]
                 try:
                     got = it.run_from(vm, start[0], start[1], env)
                 except Unsupported as ex:
@@ -294,7 +347,7 @@ def r5_acceptance_table(ctx):
     # a missing id is an error
     ok_id = False
     for c in vm.calls_to(r"Option::<.*>::ok_or_else$"):
-        if any(vm.local_name(l) == "id" for l in flow._local_copies_back(vm, op_place(c.args[0])["l"], 6)) and vm.dominates(c.bb, start[0]):
+        if slots.get("id") in flow._local_copies_back(vm, op_place(c.args[0])["l"], 6) and vm.dominates(c.bb, start[0]):
             ok_id = True
     R.check(ok_id, "C15.R5", "missing-id-is-error", "an object without id is rejected before the decision", "Response::visit_map no longer rejects an object without an id", "%s:%d" % (vm.file, vm.lo))
 
